@@ -32,6 +32,11 @@ func checkC09(c *Ctx) {
 	}
 	// (g) the path of the diagnostic to the console
 	checkOnParseErrorForm(c, f, "C09.g")
+	// (i) the target of a match is the variable lexical scoping gives it
+	if _, frtProg9, _ := libProg(c, "pkg/frt"); frtProg9 != nil {
+		nr9 := noReturn(f.Prog, frtProg9)
+		r.Import("PAIR", "C09.i", "the target of a match, and so the union whose cases must be covered, is the variable lexical scoping gives it (the scope discipline of C01/C07): a pattern binder that outlives its arm shadows the target of a later match, which is then rejected or judged against another type", 100, func() { runPair(c, f, nr9) })
+	}
 	// (h) exhaustiveness is judged against the case list stored with the union: no pass between the definition and
 	// the check may drop, add or move a case (ORDER restricted to case lists)
 	r.Rule("C09.h", "the case list of a union is handed on complete and in order by every pass that rebuilds it (element-wise image of the old list): the set exaustiveCheck requires is the set the definition declares", 1)
